@@ -273,3 +273,6 @@ THEOREMS = THEOREMS + [P + t for t in ["C02_bit_exact_nested3b", "C02_overlap_if
                                        "descs3b_encodeMessage", "foot2_muxConv", "foot2_dynLenConv", "MuxLayout.okConv_lin",
                                        "DynLayout.okConv_lin", "Descs3b.ofBase_lay", "Descs3b.ofBase_ok", "exD9_ok", "exD9_layout",
                                        "exD9_enc", "exD9_disj", "exD12_ok", "exD12_layout", "exD13_layout"]]
+# W29 (C): UTF-16LE leaves inside field items / multiplexer cases (Desc2U mirrors Described2U = Described2X LeafU)
+THEOREMS = THEOREMS + [P + t for t in ["C02_bit_exact_nested2U", "C02_overlap_iff_nested2U", "Desc2U.foot", "Desc2U.described",
+                                       "Descs2U.footTop", "descs2U_encodeMessage", "exDU_ok", "exDU_layout"]]
